@@ -229,6 +229,31 @@ func c17FixedList() []string {
 		for _, s := range c17Pinned {
 			add(s)
 		}
+		// long unparenthesised operator chains (every operand must still be presented)
+		opsets := [][]string{{"+"}, {"+", "-", "|"}, {"*", "/", "%", "<<", ">>", "&"}, {"==", "!=", "<", "<=", ">", ">="}, {"&&", "||"}, {"+", "*", "==", "&&", "-", "/", "||", "<"}}
+		for _, n := range []int{31, 32, 33, 34, 35, 36, 37, 64, 65, 66, 67, 130, 300} {
+			for si, ops := range opsets {
+				var b strings.Builder
+				for i := 0; i < n; i++ {
+					if i > 0 {
+						b.WriteString(" " + ops[(i*7+si)%len(ops)] + " ")
+					}
+					switch i % 5 {
+					case 0:
+						fmt.Fprintf(&b, "t%d", i)
+					case 1:
+						fmt.Fprintf(&b, "f%d(u%d)", i, i)
+					case 2:
+						fmt.Fprintf(&b, "%d", i)
+					case 3:
+						fmt.Fprintf(&b, "\"s%d\"", i)
+					default:
+						fmt.Fprintf(&b, "v%d[w%d]", i, i)
+					}
+				}
+				add("r = " + b.String())
+			}
+		}
 		// every template alone: blocks filled, blocks empty; expressions also as right-hand side
 		for _, t := range c17StmtTpls {
 			for _, blk := range []string{"z", "", "\nz\ny\n"} {
@@ -707,6 +732,102 @@ func c17Check(c *wk.Case, src string, root ast.Stmt, whole bool, origin string) 
 	}
 	c.Count("abort_points_checked", len(ks))
 
+	// --- overlapping walks: a walk started from inside the callback (of another
+	// tree, and of this very tree) and walks running on other goroutines at the
+	// same time must not change what this walk presents
+	c17Overlap++
+	if whole && o.err == nil && !o.panicked && (c.Tier == "thorough" || c17Overlap%3 == 0 || total > 120) {
+		other := c17OtherTree()
+		nop := func(interface{}) error { return nil }
+		same := func(seq []interface{}) string {
+			if len(seq) != len(rec.seq) {
+				return fmt.Sprintf("%d nodes presented, %d by the undisturbed walk", len(seq), len(rec.seq))
+			}
+			for i := range seq {
+				_, inTree := parents[rec.seq[i]]
+				if !c17Comparable(rec.seq[i]) {
+					inTree = false
+				}
+				if inTree && seq[i] != rec.seq[i] || c17TypeName(seq[i]) != c17TypeName(rec.seq[i]) {
+					return fmt.Sprintf("call %d presents a %s, the undisturbed walk presented the %s in %s there", i+1, c17TypeName(seq[i]), c17TypeName(rec.seq[i]), slotOf[rec.seq[i]])
+				}
+			}
+			return ""
+		}
+		r3 := &c17Rec{record: true, first: map[interface{}]int{}}
+		inner := 0
+		c.Begin(map[string]interface{}{"src": src, "op": "walk-reentrant"})
+		o3 := c17Walk(root, func(x interface{}) error {
+			r3.cb(x)
+			if inner == 0 {
+				inner++
+				astutil.Walk(other, nop)
+				if total <= 60 {
+					astutil.Walk(root, nop)
+				}
+				inner--
+			}
+			return nil
+		})
+		c.Events(r3.calls)
+		switch {
+		case o3.panicked:
+			c17Viol(c, "walk-panic:"+o3.psig, "astutil.Walk panicked when its callback started another walk: "+o3.pval, src)
+		case o3.err != nil:
+			c17Viol(c, "reentrant-walk-error", fmt.Sprintf("Walk returned %q when its callback started another walk", o3.err.Error()), src)
+		default:
+			if d := same(r3.seq); d != "" {
+				c17Viol(c, "reentrant-walk-differs", "a walk whose callback starts other walks: "+d, src)
+			}
+		}
+		const nw = 4
+		recs := make([]*c17Rec, nw)
+		outs := make([]c17WalkOut, nw)
+		var wg sync.WaitGroup
+		stopBg := make(chan struct{})
+		var bg sync.WaitGroup
+		for i := 0; i < 2; i++ {
+			bg.Add(1)
+			go func() {
+				defer bg.Done()
+				for {
+					select {
+					case <-stopBg:
+						return
+					default:
+						astutil.Walk(other, nop)
+					}
+				}
+			}()
+		}
+		c.Begin(map[string]interface{}{"src": src, "op": "walk-concurrent"})
+		for i := 0; i < nw; i++ {
+			recs[i] = &c17Rec{record: true, first: map[interface{}]int{}}
+			wg.Add(1)
+			go func(i int) {
+				defer wg.Done()
+				outs[i] = c17Walk(root, recs[i].cb)
+			}(i)
+		}
+		wg.Wait()
+		close(stopBg)
+		bg.Wait()
+		for i := 0; i < nw; i++ {
+			c.Events(recs[i].calls)
+			switch {
+			case outs[i].panicked:
+				c17Viol(c, "walk-panic:"+outs[i].psig, "astutil.Walk panicked while other goroutines were walking: "+outs[i].pval, src)
+			case outs[i].err != nil:
+				c17Viol(c, "concurrent-walk-error", fmt.Sprintf("Walk returned %q while other goroutines were walking", outs[i].err.Error()), src)
+			default:
+				if d := same(recs[i].seq); d != "" {
+					c17Viol(c, "concurrent-walk-differs", "a walk running while other goroutines walk this and another tree: "+d, src)
+				}
+			}
+		}
+		c.Count("overlapping_walks_checked", 1+nw)
+	}
+
 	if whole && c.WantSample() {
 		var types []string
 		for i, x := range rec.seq {
@@ -719,6 +840,25 @@ func c17Check(c *wk.Case, src string, root ast.Stmt, whole bool, origin string) 
 		c.Sample(map[string]interface{}{"src": src, "reflected_nodes": len(parents), "callback_calls": rec.calls,
 			"presented_in_order": types, "walk_error": ank.ErrText(o.err), "missed": missedSample, "abort_points_checked": len(ks)})
 	}
+}
+
+var c17Overlap int
+
+var (
+	c17OtherOnce sync.Once
+	c17Other     ast.Stmt
+)
+
+// c17OtherTree: a second tree, full of anonymous calls, walked while another walk is in progress.
+func c17OtherTree() ast.Stmt {
+	c17OtherOnce.Do(func() {
+		t, err, po := ank.Parse("o.m(p1, p2 + p3)(q1, q2)\ngo r.s(t1, [t2, t3])\ndefer func(u) { u.v(w1) }(v1, v2)\nx = f(1)(2)(3)\ny = a + b * c - d")
+		if err != nil || po.Panicked {
+			panic("C17: auxiliary tree does not parse")
+		}
+		c17Other = t
+	})
+	return c17Other
 }
 
 // c17Program parses one source and judges its tree.
